@@ -17,7 +17,7 @@
      DecodeFails   k = "bytes", out = "DecodeError", the reference reading of b is ERR
      DecodeYields  k = "bytes", out = "ok",          the reference reading of b is the PDU f
      Construct     k = "pdu"
-   followed in the same step by the post-conditions on the PDU f (invariants of the property):
+   (the three disjuncts of Judge; "action" = which of them matched) followed in the same evaluation by the post-conditions on the PDU f (invariants of the property):
      RoundTrip   pdu.decode(pdu.encode(f)) succeeds and has the fields Norm(f)
      Encoding    enc = Encode(f) (and so Decode(enc) = Norm(f) by the MC theorem, re-checked here)
      Length      len = DeclLen(f) = Len(enc)
@@ -103,15 +103,16 @@ Judge(c) ==
      ELSE Rej(act, <<"result", br, IF c.out = "ok" /\ ~IsErr(dd) THEN Diff(Norm(dd), Norm(c.f)) ELSE <<c.out>>>>,
               <<c.k, "mismatch">> \o br)
 
+(* One TLC state per case.  The judgement is a state predicate (CONSTRAINT Verdict in the cfg), evaluated once
+   per initial state: TLC caches LET / argument values when it evaluates a state predicate, which it does not do
+   inside a next-state action (measured: 60 s instead of 0.1 s for a 500-fold nested aggregate). *)
 TInit == tid \in 1..Len(Traces) /\ l = 1
+TNext == l = 0 /\ UNCHANGED tvars          \* never enabled: a case is one state
+TSpec == TInit /\ [][TNext]_tvars
 
-TNext ==
+Verdict ==
   LET c == Traces[tid]
       j == Judge(c)
-  IN /\ l = 1
-     /\ IF j.ok THEN PrintT(<<"ACCEPT", c.id, j.cls>>) /\ l' = 2
-        ELSE PrintT(<<"STUCK", c.id, 1, j.act, j.why, j.cls>>) /\ l' = 3
-     /\ UNCHANGED tid
-
-TSpec == TInit /\ [][TNext]_tvars
+  IN IF j.ok THEN PrintT(<<"ACCEPT", c.id, j.cls>>)
+     ELSE PrintT(<<"STUCK", c.id, 1, j.act, j.why, j.cls>>)
 =============================================================================
